@@ -206,6 +206,51 @@ Definition construct2 (xs0 ys0 : list T) (f0 : list (list T)) (x_dim y_dim f_dim
     rbind (construct ys (repeat (n0 Ops) Ny) m1 m1) (fun yi =>
       Ok {| jxs := xs; jys := ys; jf := f; jpre := n1 Ops; jxint := xi; jyint := yi |})).
 
+(** Constructor Interpolation_2D(data_table, x_dim, y_dim, f_dim) from rows (x, y, f) in x-major order.
+    std::sort is modelled by its specification (the sorted permutation; insertion sort with operator<),
+    std::unique keeps the first element of every run of equal elements. *)
+Fixpoint split_rows3 (data : list (list T)) : res (list T * list T * list T) :=
+  match data with
+  | [] => Ok ([], [], [])
+  | r :: rest =>
+      match r with
+      | [x; y; f] => rbind (split_rows3 rest) (fun c => Ok (x :: fst (fst c), y :: snd (fst c), f :: snd c))
+      | _ => Exit                                     (* data_table[i].size() != 3 *)
+      end
+  end.
+Fixpoint insert_sorted (a : T) (l : list T) : list T :=
+  match l with
+  | [] => [a]
+  | b :: r => if nltb Ops b a then b :: insert_sorted a r else a :: l
+  end.
+Definition sort_list (l : list T) : list T := fold_right insert_sorted [] l.
+Fixpoint unique_from (a : T) (l : list T) : list T :=
+  match l with
+  | [] => []
+  | b :: r => if neqb Ops a b then unique_from a r else b :: unique_from b r
+  end.
+Definition unique_list (l : list T) : list T :=
+  match l with [] => [] | a :: r => a :: unique_from a r end.
+Fixpoint list_eqb (l1 l2 : list T) : bool :=
+  match l1, l2 with
+  | [], [] => true
+  | a :: r1, b :: r2 => neqb Ops a b && list_eqb r1 r2
+  | _, _ => false
+  end.
+Definition construct2_table (data : list (list T)) (x_dim y_dim f_dim : T) : res itab2 :=
+  rbind (split_rows3 data) (fun c =>
+    let xc := fst (fst c) in let yc := snd (fst c) in let fc := snd c in
+    let x := unique_list (sort_list xc) in
+    let y := unique_list (sort_list yc) in
+    let Nx := length x in let Ny := length y in
+    if negb (Nat.eqb (Nx * Ny) (length data)) then Exit           (* "List lenghts do not fit." *)
+    (* row i_x * N_y + i_y must carry (x[i_x], y[i_y]), otherwise "Data table was not in right format." *)
+    else if negb (list_eqb (flat_map (fun xi => repeat xi Ny) x) xc
+                  && list_eqb (concat (repeat y Nx)) yc) then Exit
+    else
+      let f := map (fun ix => map (fun iy => xat fc (ix * Ny + iy)) (seq 0 Ny)) (seq 0 Nx) in
+      construct2 x y f x_dim y_dim f_dim).
+
 Definition get2 (f : list (list T)) (i j : nat) : res T := rbind (get f i) (fun r => get r j).
 
 (* t, u and the four corner values of the cell (i, j) *)
